@@ -9,7 +9,12 @@ CLAIMED = {
         'timeline for every method, for all integers; the model is tied to time.py on every run by a translator '
         '(generated definitions proved equal to the model for all arguments) and by an exhaustive in-Coq correspondence '
         'over a 7-point timeline plus random microsecond datetimes. The union-covers clause is proved only partially '
-        '(refuted in general: finding D8).',
+        '(refuted in general: finding D8). Props/C06b.v (24 theorems, closed) adds the order and lattice laws for all '
+        'well-formed intervals: the set semantics is injective, issubset is a partial order, intersection is commutative, '
+        'idempotent, associative and the greatest lower bound of that order (None exactly when isdisjoint, Some exactly when '
+        'intersects, issubset a b iff a&b = a), union is commutative, idempotent, associative, absorbs subsets and is an upper '
+        'bound for proper intervals, the predicates are monotone; every one of these laws is also demanded of the '
+        'implementation on chained library-returned objects (2500 triples of the exhaustive timeline in quick, all 21952 in thorough).',
    note='Trusted: Coq kernel + vm_compute; tools/translate.py and the abstraction datetime -> integer microseconds UTC; '
         'the harness. No axioms (closed under the global context).',
    technique='Coq proof over Q-dense set semantics + translator tie (GenEq by lia) + exhaustive in-Coq correspondence',
